@@ -200,6 +200,13 @@ def part_layout(ctx):
                                  nospace=rng.choice([0.0, 0.5, 1.0]),
                                  abbreviate=rng.choice([0.0, 0.5, 1.0]),
                                  comments=rng.choice([0.0, 0.1, 0.3]))
+            if rng.random() < 0.25:
+                # a header: comment lines from column 0, the script right
+                # below them (no blank line in between)
+                text = ''.join(rng.choice(['# a script\n', '#\n', '#!ls\n',
+                                           '# hue 5 set all\n'])
+                               for _ in range(rng.randint(1, 3))) + text
+                ctx.count('layouts_with_a_comment_header')
             ctx.case('L:' + sig(text), nontrivial=text != canon)
             fp, err = compile_listing(text)
             replay = {'part': 'layout', 'canonical': canon, 'text': text}
